@@ -213,14 +213,18 @@ func dnsScenarioC09(w *dnsWorld) {
 	sleeps := []time.Duration{0, time.Millisecond, 50 * time.Millisecond, time.Second, 6 * time.Second, 12 * time.Second, 35 * time.Second, 130 * time.Second}
 	type step struct {
 		sleep time.Duration
+		align int // >0: sleep until the align-th next tick of the janitor (queries racing the janitor's passes)
 		op    *dnsOp
 	}
 	plans := make([][]step, nCli)
 	for ci := range plans {
 		n := T.Range(1, 4)
 		for i := 0; i < n; i++ {
-			if T.Chance(1, 3) {
+			switch T.Pick(6, 3, 1) {
+			case 1:
 				plans[ci] = append(plans[ci], step{sleep: sleeps[T.Choose(len(sleeps))]})
+			case 2:
+				plans[ci] = append(plans[ci], step{align: []int{1, 3, 7, 25}[T.Choose(4)]})
 			}
 			op := &dnsOp{cli: ci, idx: len(w.ops), name: w.names[T.Choose(len(w.names))], qtype: dnsQtypes[T.Pick(4, 2, 1)], id: ids[T.Choose(len(ids))], viaUDP: T.Chance(1, 3)}
 			op.qname = w.wireName(op.name, T.Pick(4, 1, 1))
@@ -229,7 +233,7 @@ func dnsScenarioC09(w *dnsWorld) {
 		}
 	}
 	w.opsTotal = len(w.ops)
-	cliDone := 0
+	cliDone, sleeping := 0, 0
 	for ci := 0; ci < nCli; ci++ {
 		ci := ci
 		verifsim.Go(fmt.Sprintf("client%d", ci), func() {
@@ -239,9 +243,15 @@ func dnsScenarioC09(w *dnsWorld) {
 					return
 				}
 				if st.op == nil {
+					if st.align > 0 {
+						j := w.cfg.janitor
+						st.sleep = j - s.Now()%j + time.Duration(st.align-1)*j
+					}
 					if st.sleep > 0 {
+						sleeping++
 						time.Sleep(st.sleep)
 						verifsim.YieldB("client-woke")
+						sleeping--
 					}
 					continue
 				}
@@ -266,7 +276,28 @@ func dnsScenarioC09(w *dnsWorld) {
 			w.env("reload", func() { w.reloadReuse(w.rules) })
 		}})
 	}
-	if !s.RunUntil(func() bool { return cliDone == nCli && w.envTasks == 0 }, 8) {
+	// Scheduling loop: while questions are being resolved simulated time advances in
+	// steps of at most 100 ms (timeouts of seconds still elapse, but a runnable task is
+	// not held back for seconds); while every client sleeps and nothing is in flight,
+	// runnable tasks are drained and time may jump.
+	allDone := func() bool { return cliDone == nCli && w.envTasks == 0 }
+	for s.Step < s.MaxSteps && !s.Failed() && !allDone() {
+		if sleeping+cliDone == nCli && w.fwdInFlight() == 0 && w.envTasks == 0 {
+			s.Quiesce(func() bool { return true }, 0, 0)
+			w.track.scan()
+			if allDone() || sleeping+cliDone != nCli {
+				continue
+			}
+			if !s.StepOnce(true, 9) {
+				break
+			}
+			continue
+		}
+		if !s.StepOnce(true, 6) {
+			break
+		}
+	}
+	if !allDone() {
 		if !s.Failed() {
 			s.Probe("dns.step-budget-exhausted")
 		}
